@@ -1,5 +1,154 @@
 package main
 
+import (
+	"go/ast"
+	"go/token"
+	"strings"
+)
+
+// ---- helpers of C11 (own file; the generic shape extractor drops local assignments, call arguments,
+// channel capacities and comparison operators - exactly what the protocol depends on)
+
+// c11Stmts lists the top-level statements of a function as printed source (for three-line container methods
+// every statement is semantically relevant).
+func (s *source) c11Stmts(fd *ast.FuncDecl) []string {
+	var out []string
+	for _, st := range fd.Body.List {
+		out = append(out, s.src(st))
+	}
+	return out
+}
+
+// c11SelectCases lists, for the first select statement of a function (searched in nested function literals
+// too), every case as "case <comm>:" followed by the printed statements of its body.
+func (s *source) c11SelectCases(fd *ast.FuncDecl) []string {
+	var out []string
+	done := false
+	ast.Inspect(fd.Body, func(n ast.Node) bool {
+		if done {
+			return false
+		}
+		if sel, ok := n.(*ast.SelectStmt); ok {
+			done = true
+			for _, c := range sel.Body.List {
+				cc := c.(*ast.CommClause)
+				if cc.Comm == nil {
+					out = append(out, "default:")
+				} else {
+					out = append(out, "case "+s.src(cc.Comm)+":")
+				}
+				for _, st := range cc.Body {
+					out = append(out, s.src(st))
+				}
+			}
+			return false
+		}
+		return true
+	})
+	return out
+}
+
+// c11Calls lists every call whose printed function starts with one of the prefixes, with its arguments, in
+// source order (atomic.AddInt32(&pe.inflight, 1) vs (…, -1); make(chan any, 1) vs make(chan …)).
+func (s *source) c11Calls(fd *ast.FuncDecl, prefixes ...string) []string {
+	var out []string
+	ast.Inspect(fd.Body, func(n ast.Node) bool {
+		if c, ok := n.(*ast.CallExpr); ok {
+			fn := s.src(c.Fun)
+			for _, p := range prefixes {
+				if strings.HasPrefix(fn, p) {
+					out = append(out, s.src(c))
+					break
+				}
+			}
+		}
+		return true
+	})
+	return out
+}
+
+// c11Conds lists the conditions of every if / for statement and every return expression list, in source order.
+func (s *source) c11Conds(fd *ast.FuncDecl) []string {
+	var out []string
+	ast.Inspect(fd.Body, func(n ast.Node) bool {
+		switch x := n.(type) {
+		case *ast.IfStmt:
+			out = append(out, "if "+s.src(x.Cond))
+		case *ast.ForStmt:
+			if x.Cond != nil {
+				out = append(out, "for "+s.src(x.Cond))
+			} else {
+				out = append(out, "for")
+			}
+		case *ast.ReturnStmt:
+			var rs []string
+			for _, r := range x.Results {
+				if _, isLit := r.(*ast.FuncLit); isLit {
+					rs = append(rs, "func")
+				} else {
+					rs = append(rs, s.src(r))
+				}
+			}
+			out = append(out, strings.TrimSpace("return "+strings.Join(rs, ", ")))
+		}
+		return true
+	})
+	return out
+}
+
+// c11Assigns lists the assignments to (and declarations of) the local identifier `name`, in source order.
+func (s *source) c11Assigns(fd *ast.FuncDecl, name string) []string {
+	var out []string
+	ast.Inspect(fd.Body, func(n ast.Node) bool {
+		switch x := n.(type) {
+		case *ast.AssignStmt:
+			for _, l := range x.Lhs {
+				if id, ok := l.(*ast.Ident); ok && id.Name == name {
+					out = append(out, s.src(x))
+				}
+			}
+		case *ast.DeclStmt:
+			if gd, ok := x.Decl.(*ast.GenDecl); ok && gd.Tok == token.VAR {
+				for _, sp := range gd.Specs {
+					for _, id := range sp.(*ast.ValueSpec).Names {
+						if id.Name == name {
+							out = append(out, s.src(x))
+						}
+					}
+				}
+			}
+		}
+		return true
+	})
+	return out
+}
+
+// c11Cmp finds the (single) comparison returned by a container's AddTask and emits its operator and operands:
+// the threshold test `len(bc.tasks) >= bc.maxTasks` / `bc.size >= bc.maxChunkSize`.
+func (s *source) c11Cmp(fd *ast.FuncDecl) []string {
+	var out []string
+	for _, st := range fd.Body.List {
+		if r, ok := st.(*ast.ReturnStmt); ok && len(r.Results) == 1 {
+			if b, ok := r.Results[0].(*ast.BinaryExpr); ok {
+				out = append(out, s.src(b.X), b.Op.String(), s.src(b.Y))
+			} else {
+				out = append(out, "not-a-comparison: "+s.src(r.Results[0]))
+			}
+		}
+	}
+	return out
+}
+
+func (e *emitter) c11List(s *source, rel, goName, leanName, doc string, f func(fd *ast.FuncDecl) []string) {
+	fd := s.findFunc(rel, goName)
+	if fd == nil {
+		e.errors = append(e.errors, "function "+goName+" not found in "+rel)
+		e.stringList(leanName, "MISSING: "+goName+" in "+rel, []string{"MISSING"})
+		return
+	}
+	e.stringList(leanName, doc+" of `"+goName+"` in "+rel, f(fd))
+}
+
 func init() {
 	register("C11", func(s *source, e *emitter) {
 		const f = "core/executors/periodicalexecutor.go"
@@ -7,6 +156,7 @@ func init() {
 		e.shapeDef(s, f, "PeriodicalExecutor.Add", "addShape")
 		e.shapeDef(s, f, "PeriodicalExecutor.addAndCheck", "addAndCheckShape")
 		e.shapeDef(s, f, "PeriodicalExecutor.Flush", "flushShape")
+		e.shapeDef(s, f, "PeriodicalExecutor.Sync", "syncShape")
 		e.shapeDef(s, f, "PeriodicalExecutor.Wait", "waitShape")
 		e.shapeDef(s, f, "PeriodicalExecutor.backgroundFlush", "backgroundFlushShape")
 		e.shapeDef(s, f, "PeriodicalExecutor.enterExecution", "enterExecutionShape")
@@ -15,6 +165,29 @@ func init() {
 		e.shapeDef(s, f, "PeriodicalExecutor.hasTasks", "hasTasksShape")
 		e.shapeDef(s, f, "PeriodicalExecutor.shallQuit", "shallQuitShape")
 		e.shapeDef(s, f, "NewPeriodicalExecutor", "newShape")
+		// what the skeletons drop
+		e.c11List(s, f, "PeriodicalExecutor.backgroundFlush", "backgroundFlushCases", "select cases (statements in order)", s.c11SelectCases)
+		e.c11List(s, f, "PeriodicalExecutor.backgroundFlush", "commandedAssigns", "assignments to `commanded`",
+			func(fd *ast.FuncDecl) []string { return s.c11Assigns(fd, "commanded") })
+		e.c11List(s, f, "PeriodicalExecutor.backgroundFlush", "lastAssigns", "assignments to `last`",
+			func(fd *ast.FuncDecl) []string { return s.c11Assigns(fd, "last") })
+		atomics := func(fd *ast.FuncDecl) []string { return s.c11Calls(fd, "atomic.") }
+		e.c11List(s, f, "PeriodicalExecutor.addAndCheck", "addAndCheckAtomics", "atomic calls with arguments", atomics)
+		e.c11List(s, f, "PeriodicalExecutor.backgroundFlush", "backgroundFlushAtomics", "atomic calls with arguments", atomics)
+		e.c11List(s, f, "PeriodicalExecutor.Wait", "waitAtomics", "atomic calls with arguments", atomics)
+		e.c11List(s, f, "PeriodicalExecutor.shallQuit", "shallQuitAtomics", "atomic calls with arguments", atomics)
+		e.c11List(s, f, "NewPeriodicalExecutor", "newMakes", "channel constructions",
+			func(fd *ast.FuncDecl) []string { return s.c11Calls(fd, "make") })
+		e.c11List(s, f, "PeriodicalExecutor.addAndCheck", "addAndCheckConds", "conditions and returns", s.c11Conds)
+		e.c11List(s, f, "PeriodicalExecutor.Add", "addConds", "conditions and returns", s.c11Conds)
+		e.c11List(s, f, "PeriodicalExecutor.executeTasks", "executeTasksConds", "conditions and returns", s.c11Conds)
+		e.c11List(s, f, "PeriodicalExecutor.hasTasks", "hasTasksConds", "conditions and returns", s.c11Conds)
+		e.c11List(s, f, "PeriodicalExecutor.shallQuit", "shallQuitConds", "conditions and returns", s.c11Conds)
+		e.c11List(s, f, "PeriodicalExecutor.shallQuit", "shallQuitStops", "assignments to `stop`",
+			func(fd *ast.FuncDecl) []string { return s.c11Assigns(fd, "stop") })
+		e.c11List(s, f, "PeriodicalExecutor.Wait", "waitConds", "conditions and returns", s.c11Conds)
+		e.c11List(s, f, "PeriodicalExecutor.Flush", "flushConds", "conditions and returns", s.c11Conds)
+		// the containers: every statement, and the threshold comparison
 		const b = "core/executors/bulkexecutor.go"
 		e.shapeDef(s, b, "bulkContainer.AddTask", "bulkAddTaskShape")
 		e.shapeDef(s, b, "bulkContainer.RemoveAll", "bulkRemoveAllShape")
@@ -22,6 +195,11 @@ func init() {
 		e.shapeDef(s, b, "BulkExecutor.Add", "bulkAddShape")
 		e.shapeDef(s, b, "BulkExecutor.Flush", "bulkFlushShape")
 		e.shapeDef(s, b, "BulkExecutor.Wait", "bulkWaitShape")
+		e.c11List(s, b, "bulkContainer.AddTask", "bulkAddTaskStmts", "statements", s.c11Stmts)
+		e.c11List(s, b, "bulkContainer.RemoveAll", "bulkRemoveAllStmts", "statements", s.c11Stmts)
+		e.c11List(s, b, "bulkContainer.Execute", "bulkExecuteStmts", "statements", s.c11Stmts)
+		e.c11List(s, b, "bulkContainer.AddTask", "bulkThreshold", "threshold comparison (lhs, operator, rhs)", s.c11Cmp)
+		e.c11List(s, b, "NewBulkExecutor", "newBulkStmts", "statements", s.c11Stmts)
 		const c = "core/executors/chunkexecutor.go"
 		e.shapeDef(s, c, "chunkContainer.AddTask", "chunkAddTaskShape")
 		e.shapeDef(s, c, "chunkContainer.RemoveAll", "chunkRemoveAllShape")
@@ -29,5 +207,24 @@ func init() {
 		e.shapeDef(s, c, "ChunkExecutor.Add", "chunkAddShape")
 		e.shapeDef(s, c, "ChunkExecutor.Flush", "chunkFlushShape")
 		e.shapeDef(s, c, "ChunkExecutor.Wait", "chunkWaitShape")
+		e.c11List(s, c, "chunkContainer.AddTask", "chunkAddTaskStmts", "statements", s.c11Stmts)
+		e.c11List(s, c, "chunkContainer.RemoveAll", "chunkRemoveAllStmts", "statements", s.c11Stmts)
+		e.c11List(s, c, "chunkContainer.Execute", "chunkExecuteStmts", "statements", s.c11Stmts)
+		e.c11List(s, c, "chunkContainer.AddTask", "chunkThreshold", "threshold comparison (lhs, operator, rhs)", s.c11Cmp)
+		e.c11List(s, c, "ChunkExecutor.Add", "chunkAddStmts", "statements", s.c11Stmts)
+		e.c11List(s, c, "NewChunkExecutor", "newChunkStmts", "statements", s.c11Stmts)
+		// users of the executor named by the property's anchors: the sqlx bulk inserter
+		const q = "core/stores/sqlx/bulkinserter.go"
+		e.constDef(s, q, "maxBulkRows", "sqlxMaxBulkRows")
+		e.shapeDef(s, q, "BulkInserter.Insert", "sqlxInsertShape")
+		e.shapeDef(s, q, "BulkInserter.Flush", "sqlxFlushShape")
+		e.shapeDef(s, q, "BulkInserter.UpdateOrDelete", "sqlxUpdateOrDeleteShape")
+		e.shapeDef(s, q, "BulkInserter.UpdateStmt", "sqlxUpdateStmtShape")
+		e.shapeDef(s, q, "BulkInserter.SetResultHandler", "sqlxSetResultHandlerShape")
+		e.shapeDef(s, q, "NewBulkInserter", "sqlxNewShape")
+		e.c11List(s, q, "dbInserter.AddTask", "sqlxAddTaskStmts", "statements", s.c11Stmts)
+		e.c11List(s, q, "dbInserter.RemoveAll", "sqlxRemoveAllStmts", "statements", s.c11Stmts)
+		e.c11List(s, q, "dbInserter.AddTask", "sqlxThreshold", "threshold comparison (lhs, operator, rhs)", s.c11Cmp)
+		e.c11List(s, q, "dbInserter.Execute", "sqlxExecuteConds", "conditions and returns", s.c11Conds)
 	})
 }
